@@ -210,7 +210,7 @@ func TestRace(t *testing.T) {
 	defer res.Write() //nolint:errcheck
 	iters, maxScript := 10, 3
 	if res.Thorough() {
-		iters, maxScript = 100, 4
+		iters, maxScript = 30, 4
 	}
 	var scs []scenario
 	cp, ep, cp2, ep2 := programs(res.Thorough())
